@@ -165,7 +165,10 @@ def explore(ctx, drv, model, cases, stats, search=False):
                 if mrets != df.get("rets"):
                     why = "hash() calls/results: model %s, library %s" % (mrets, df.get("rets"))
                 elif mainprog == "-":
-                    if mf["rc"] != df.get("rc") or (df.get("cache") not in (mf["cache"],)):
+                    # explicit hash() calls fill the cache; the other operations may hash internally (dictionary
+                    # look-ups), so without explicit calls both 0 and H are legitimate
+                    cache_ok = df.get("cache") == "H" if mf["cache"] == "H" else df.get("cache") in ("0", "H")
+                    if mf["rc"] != df.get("rc") or not cache_ok:
                         why = "after the run: model rc=%s cache=%s, library rc=%s cache=%s" % (mf["rc"], mf["cache"], df.get("rc"), df.get("cache"))
                 else:
                     if mf["freed"] != df.get("freed") and df.get("freed") != "?":
